@@ -686,3 +686,153 @@ def real_native_parse(d, kind, path=None):
         if tmp:
             os.unlink(tmp)
     return {"ok": {"events": stub.calls, "ns_map": [[k, v] for k, v in p.ns_map.items()]}}
+
+
+# --------------------------------------------------------------------------
+# universes with element fields typed as a union of model classes (UnionNode)
+# --------------------------------------------------------------------------
+def union_universe(rng):
+    """A class universe whose Root has element fields typed `Union[A, B(, C)]` of model classes; the
+    variants nest child elements that carry attributes (two levels), so that the UnionNode records and
+    replays start events with attributes.  Returns (desc, build) where build(universe, rng) makes an instance."""
+    ns = rng.choice([None, None, "urn:u", "http://example.com/ns"])
+    meta = {"namespace": ns} if ns else None
+
+    def cls(name, fields, m=None):
+        c = {"name": name, "fields": fields}
+        if m or meta:
+            c["meta"] = {**(meta or {}), **(m or {})}
+        return c
+
+    def attr(fname, t="str", **md):
+        return {"name": fname, "type": {"opt": t}, "metadata": {"type": "Attribute", **md}, "default": {"value": None}}
+
+    def elem(fname, t, **md):
+        return {"name": fname, "type": {"opt": t}, "metadata": {"type": "Element", **md}, "default": {"value": None}}
+
+    def elems(fname, t, **md):
+        return {"name": fname, "type": {"list": t}, "metadata": {"type": "Element", **md}, "default": {"factory": "list"}}
+
+    deep = rng.random() < 0.6
+    classes = []
+    if deep:
+        classes.append(cls("Tag", [attr("k"), attr("n", "int"), {"name": "v", "type": {"opt": "str"}, "metadata": {}, "default": {"value": None}}]))
+    pf = [attr("x", "int"), attr("y", rng.choice(["str", "int", "bool"])), elem("label", "str")]
+    if rng.random() < 0.4:
+        pf.append(attr("q", "str", name="q-name", namespace=rng.choice(["urn:at", ""])))
+    if deep:
+        pf.append(elem("tag", {"cls": "Tag"}) if rng.random() < 0.5 else elems("tag", {"cls": "Tag"}))
+    classes.append(cls("Point", pf))
+    a_fields = [elem("start", {"cls": "Point"}), elem("stop", {"cls": "Point"})]
+    b_fields = [elem("center", {"cls": "Point"}), elem("radius", "int")]
+    c_fields = [elems("pt", {"cls": "Point"}), attr("closed", "bool")]
+    if rng.random() < 0.5:
+        a_fields.append(attr("id", "str"))
+    classes.append(cls("Segment", a_fields))
+    classes.append(cls("Circle", b_fields))
+    variants = ["Segment", "Circle"]
+    if rng.random() < 0.5:
+        classes.append(cls("Path", c_fields))
+        variants.append("Path")
+    rng.shuffle(variants)
+    union = {"union": [{"cls": v} for v in variants]}
+    many = rng.random() < 0.5
+    rf = [attr("title", "str")]
+    rf.append(elems("shape", union) if many else elem("shape", union))
+    if rng.random() < 0.4:
+        rf.append(elem("note", "str"))
+    if rng.random() < 0.3:
+        rf.insert(1, elem("first", {"cls": "Point"}))
+    classes.append(cls("Root", rf))
+    desc = {"classes": classes}
+
+    def build(u, r):
+        C = u.classes
+
+        def tag():
+            return C["Tag"](k=r.choice([None, "a", "é", ""]), n=r.choice([None, 0, 7]), v=r.choice([None, "t", "x y"]))
+
+        def point():
+            kw = {"x": r.choice([None, 0, 1, -5, 12]), "label": r.choice([None, "a", "lbl", ""])}
+            yt = next(f for f in next(c for c in classes if c["name"] == "Point")["fields"] if f["name"] == "y")["type"]["opt"]
+            kw["y"] = {"str": r.choice([None, "v", "a b", ""]), "int": r.choice([None, 2, 40]), "bool": r.choice([None, True, False])}[yt]
+            if any(f["name"] == "q" for f in pf):
+                kw["q"] = r.choice([None, "qq"])
+            tf = next((f for f in pf if f["name"] == "tag"), None)
+            if tf:
+                kw["tag"] = [tag() for _ in range(r.randint(0, 2))] if "list" in tf["type"] else (tag() if r.random() < 0.7 else None)
+            return C["Point"](**kw)
+
+        def variant():
+            v = r.choice(variants)
+            if v == "Segment":
+                kw = {"start": point() if r.random() < 0.8 else None, "stop": point() if r.random() < 0.8 else None}
+                if any(f["name"] == "id" for f in a_fields):
+                    kw["id"] = r.choice([None, "s1"])
+                return C["Segment"](**kw)
+            if v == "Circle":
+                return C["Circle"](center=point() if r.random() < 0.8 else None, radius=r.choice([None, 3, 10]))
+            return C["Path"](pt=[point() for _ in range(r.randint(0, 3))], closed=r.choice([None, True]))
+
+        kw = {"title": r.choice([None, "t"])}
+        kw["shape"] = [variant() for _ in range(r.randint(0, 3))] if many else (variant() if r.random() < 0.9 else None)
+        if any(f["name"] == "note" for f in rf):
+            kw["note"] = r.choice([None, "n"])
+        if any(f["name"] == "first" for f in rf):
+            kw["first"] = point() if r.random() < 0.5 else None
+        return C["Root"](**kw)
+
+    return desc, build
+
+
+# --------------------------------------------------------------------------
+# UnionNode.child / bind under the lxml handler's loop (op c08.union_record)
+# --------------------------------------------------------------------------
+def union_tokens(tree):
+    """nested element tree {"q", "a": [[k, v]], "c": [...]} -> [["start", id, q, attrs] | ["end", id, q]]"""
+    out = []
+    counter = [0]
+
+    def go(n):
+        counter[0] += 1
+        i = counter[0]
+        out.append(["start", i, n["q"], [list(kv) for kv in n["a"]]])
+        for c in n["c"]:
+            go(c)
+        out.append(["end", i, n["q"]])
+
+    for c in tree["c"]:
+        go(c)
+    return out
+
+
+def real_union_record(tree):
+    """a real UnionNode fed the way LxmlEventHandler feeds the parser for the content of a union element:
+    `child(tag, element.attrib, element.nsmap, …)` at a start, `bind(…)` then `element.clear()` at an end"""
+    from xsdata.formats.dataclass.parsers.nodes import UnionNode
+
+    def markup(n):
+        at = "".join(f' {k}="{esc_attr(v, chr(34))}"' for k, v in n["a"])
+        return f"<{n['q']}{at}>" + "".join(markup(c) for c in n["c"]) + f"</{n['q']}>"
+
+    var = type("V", (), {"types": (), "qname": "u"})()
+    node = UnionNode(meta=None, var=var, attrs={}, ns_map={}, position=0, config=None, context=None)
+    data = markup({"q": "u", "a": [], "c": tree["c"]}).encode()
+    depth = 0
+    for event, el in LE.iterparse(io.BytesIO(data), ("start", "end")):
+        if event == "start":
+            depth += 1
+            if depth > 1:
+                node.child(el.tag, el.attrib, el.nsmap, 0)
+        else:
+            if depth > 1:
+                node.bind(el.tag, el.text, el.tail, [])
+                el.clear()
+            depth -= 1
+    out = []
+    for ev in node.events:
+        if ev[0] == "start":
+            out.append(["start", ev[1], [[k, v] for k, v in dict(ev[2]).items()]])
+        else:
+            out.append(["end", ev[1]])
+    return {"ok": out}
